@@ -29,7 +29,7 @@ from .types import (
 if TYPE_CHECKING:  # Fix import cycles of types needed for Mypy checking
     from .schema import Schema
 
-VALID_NAME_RE = re.compile(r"^(?!__)[_a-zA-Z][_a-zA-Z0-9]*$")
+VALID_NAME_RE = re.compile(r"^(?!__)[_a-zA-Z][_a-zA-Z0-9]*\Z")
 RESERVED_NAMES = set(t.name for t in SPECIFIED_SCALAR_TYPES)
 
 VAR_PARAM_KINDS = (Parameter.VAR_POSITIONAL, Parameter.VAR_KEYWORD)
